@@ -220,6 +220,7 @@ op = st.one_of(
     # macro: requestSeed, sendKey (correct key), then a session change / reset / nothing
     st.tuples(st.just("unlock"), st.integers(0, 50), st.sampled_from(["dsc_same", "dsc_same", "dsc_offered", "reset", "f186"]), st.booleans()),
     st.tuples(st.just("reset"), st.integers(0, 7), st.booleans()),
+    st.tuples(st.just("reboot"), st.integers(0, 50), st.integers(0, 2)),
     st.tuples(st.just("f186")),
     st.tuples(st.just("tp"), st.booleans()),
     st.tuples(st.just("repeat")),
@@ -228,6 +229,10 @@ op = st.one_of(
 
 def expand(o: tuple[Any, ...]) -> list[tuple[Any, ...]]:
     """macro ops -> elementary ops"""
+    if o[0] == "reboot":
+        # reset through an offered sub-function, then poll with the same request until the ECU is back (as wait_for_ecu does)
+        poll = ("tp", False) if o[2] == 0 else ("f186",) if o[2] == 1 else ("raw", b"\x22\xf1\x90")
+        return [("reset_offered", o[1]), poll, poll, poll]
     if o[0] == "unlock":
         then = {"dsc_same": ("dsc_same", o[3]), "dsc_offered": ("dsc_offered", o[1], o[3]), "reset": ("reset", o[1], o[3]),
                 "f186": ("f186",)}[o[2]]
@@ -243,6 +248,9 @@ def resolve(o: tuple[Any, ...], model: dict[int, dict[int, list[int] | None]], s
     if k == "dsc_offered":
         offered = cur.get(0x10) or [1]
         return bytes([0x10, offered[o[1] % len(offered)] | (0x80 if o[2] else 0)])
+    if k == "reset_offered":
+        sfs = cur.get(0x11) or [1]
+        return bytes([0x11, sfs[o[1] % len(sfs)]])
     if k == "dsc_same":
         return bytes([0x10, session | (0x80 if o[1] else 0)])
     if k == "seedkey_seed":
